@@ -31,12 +31,12 @@ def split_top(s, sep=","):
 
 
 class Defs:
-    def __init__(self, repo=None):
+    def __init__(self, repo=None, src=None):
         repo = repo or mirdump.REPO
         self.structs = {}    # name -> [(field, type)]   (tuple structs: field = index)
         self.enums = {}      # name -> [(variant, [types] or [(field, type)])]
         self.aliases = {}
-        for rel in SRC:
+        for rel in (src or SRC):
             t = _strip_comments(open(os.path.join(repo, rel), encoding="utf-8").read())
             t = re.sub(r"#\[[^\]]*\]", "", t)
             for m in re.finditer(r"\btype\s+(\w+)(?:<[^>]*>)?\s*=\s*([^;]+);", t):
